@@ -292,3 +292,19 @@ package kubeeventsmanager
 //@     invariant 0 <= iter() && iter() <= len(value) && nCtx == n0 + 1 + iter() && ctxParent[n0] == m.ctx && ctx == ctxLog[n0]
 //@     invariant lastStoredNs == nsName && lastStoredCancel == ctxCancel[n0]
 //@     invariant forall(j, 0, iter(), ctxParent[n0 + 1 + j] == ctxLog[n0] && value[j].ctx == ctxLog[n0 + 1 + j])
+
+// ---- C02 / C01: a stopped informer factory does not stay in the store ---------------------------
+// (a later Start for the same index would get the dead factory: its handler is refused and the new
+// informer never sees a watch event)
+//@ ghost nFactoryCancel int
+//@ trusted func Factory.cancel
+//@   modifies nFactoryCancel
+//@   ghostset nFactoryCancel := nFactoryCancel + 1
+//@ func (*FactoryStore).Stop
+//@   prop C02, C01
+//@   requires c.data != nil && forall(i, FactoryIndex, has(c.data, i) ==> c.data[i].handlerRegistrations != nil)
+//@   modifies mapof(c.data), all(mapof(c.data[index].handlerRegistrations)), nFactoryCancel
+//@   ensures [stopped-factory-leaves-the-store] nFactoryCancel > old(nFactoryCancel) ==> !has(c.data, index)
+//@   ensures [only-this-factory-removed] forall(i, FactoryIndex, i != index ==> has(c.data, i) == old(has(c.data, i)) && c.data[i] == old(c.data[i]))
+//@   ensures [stopped-at-most-once] nFactoryCancel <= old(nFactoryCancel) + 1
+//@   ensures [last-user-stops-it] old(has(c.data, index)) && old(has(c.data[index].handlerRegistrations, informerId)) && card(old(c.data[index]).handlerRegistrations) == 0 ==> nFactoryCancel == old(nFactoryCancel) + 1
